@@ -178,6 +178,25 @@ PROPS = {
                    'their stated preconditions. Not covered yet: compressed proofs, serde decoding, STARK entry points.',
         remainder=['verify_compressed / decompress (HashMap keyed by proof data)', 'byte decoders (util/serialization)', 'starky verifier'],
     ),
+    'C08': dict(
+        title='Table lookups are provable exactly for pairs contained in the table',
+        design_ref='DESIGN.md section 4 / C08',
+        bounded=[('plonky2', ['c08_'])],
+        vspecs=['contracts/C08/lookup_selectors.vspec', 'contracts/C08/lookup_gates.vspec'],
+        level_text='Unbounded deductive proof (Verus/Z3) of the placement layer of the lookup argument: selectors_lookup returns exactly four selector '
+                   'columns with TransSre = 1 exactly on [last_lut_k, first_lut_k], TransLdc = 1 exactly on [last_lu_k, last_lut_k), InitSre = 1 exactly '
+                   'at first_lut_k + 1 and LastLdc = 1 exactly at last_lu_k, for EVERY table k and no other row, for any number of tables and any '
+                   'degree; selector_ends_lookups returns one column per table that is 1 exactly on that table\'s last_lut row; all writes in bounds; '
+                   'LookupGate / LookupTableGate slot wires are pairwise disjoint routed wires. The logarithmic-derivative argument itself is covered '
+                   'by a bounded stand-in only.',
+        level_note='Trusted: Verus+Z3; rows_ok (add_all_lookups places lookup rows, table rows and a zero row: CircuitBuilder code, assumed); '
+                   'PolynomialValues::new contract. check_lookup_constraints*, get_lut_poly, compute_lookup_polys, set_lookup_wires, '
+                   'add_all_lookups, LookupTableGenerator: closure/HashMap code, bounded harness only (11 table/lookup plans incl. 1..3 tables, sizes 1..53, '
+                   'exact multiples of the slot counts, heavy repetition, unused entries; every first/middle/last looked-up pair corrupted on both '
+                   'sides incl. pairs of another table). Multiplicity corruption needs prover hooks and is not exercised.',
+        remainder=['logUp soundness argument', 'check_lookup_constraints* / get_lut_poly (bounded harness only)', 'set_lookup_wires / compute_lookup_polys (bounded harness only)',
+                   'add_all_lookups establishes rows_ok (assumed)', 'corrupted multiplicities (need prover hooks; not exercised)'],
+    ),
     'C20': dict(
         title='Conditional and cyclic recursion enforce exactly the selected verification',
         design_ref='DESIGN.md section 4 / C20',
